@@ -133,6 +133,9 @@ fn named_inputs_never_panic() {
         "\\endlinechar=-1 \nA^^\nB", "A^^", "A^^\n", "^^", "^^4", "^^4\n", "^^é", "^^M^^", "\\endlinechar=-1 \n^^4", "\\endlinechar=300 \n^^", "\\^^", "\\a^^\n", "\\endlinechar=-1 \n\\^^", "\\endlinechar=-1 \n^^^", "^^^^", "^^\u{7f}",
         // the OFFENDING token itself is non-ASCII (the error is rendered with that token highlighted)
         "\\count 0=é", "\\catcode`é=é", "\\ifnum é", "\\dimen0=é", "\\skip0=1pt plus é", "\\def\\a#é{}", "\\countdef é", "é\\count0=日本", "\\count0=\u{301}", "\\count0=1é\\count0=é", "\\read 3 to é", "\\let é", "\\the é", "\\advance é",
+        // allocation: an alias of an array, arrays of length 0, elements far out of range, \\newInt inside a group
+        "\\newIntArray \\a 3 \\let\\b=\\a \\b 0=1", "\\newIntArray \\a 0 \\a 0 = 1", "\\newIntArray \\a -3 \\a 0 = 1", "\\newIntArray \\a 3 \\a 3=1", "\\newIntArray \\a 3 \\a 2147483647=1", "\\newIntArray \\a 3 \\a -1=1",
+        "{\\newInt\\n \\n=3 }\\n=4 \\the\\n", "\\newIntArray \\a 2 {\\newIntArray \\a 5 \\a 4=1 }\\a 4=1", "\\newInt\\n \\let\\m=\\n \\m=3 \\the\\n", "\\newIntArray 3", "\\newIntArray \\a", "\\newIntArray \\a \\a",
         "éé\n\\count", "% ☕\n\\def\\a{", "é\n\n日本\n\\toks 0 = {unclosed", "ééé\n   \n\\advance", "☕☕☕\n\\ifcase 3 é", "é\\def\\a#1.{}\n\\a é",
     ];
     // every interaction mode, so that every recovery path runs (C09: "in any interaction mode")
